@@ -141,6 +141,8 @@ def gen_e2e(ctx, rng):
         meta["omit_all_sensors"] = True
     if rng.random() < 0.35:
         meta["np_ints"] = rng.choice([64, 32])
+    if len(L) >= 1 and rng.random() < 0.3:
+        meta["region_container"] = rng.choice(["tuple1", "2d", "list"])
     return OptCase(B, "gqr", gqr=kw, meta=meta)
 
 
